@@ -1,23 +1,75 @@
 import QuartzModel.Theorems.C15
 /-!
-# C15, known finding F4 (`size-head-retried-per-interrupt`): the full-strength rate clause is FALSE for the loop's read-only calls
+# C15, finding F4 (`size-head-retried-per-interrupt`, repaired): the full-strength rate clause for the loop's read-only calls
 
-"The execution loop retries a failing queue no faster than once per RetryInterval." For `Pop()` / `Push()` failures this holds whatever
+"The execution loop retries a failing queue no faster than once per RetryInterval." For `Pop()` / `Push()` failures this held whatever
 interrupts arrive (`C15_backoff`, second clause; `C15_deadline_not_postponed`). For a failing `Size()` (and likewise `Head()`) the source
-only arms the timer with RetryInterval (`case err != nil: timer.Reset(RetryInterval)`) and sets no deadline, so an interrupt — every
-successful mutating API call sends one — ends the wait and the next iteration asks the failing queue again at once. `C15_backoff`'s
-first clause therefore carries the hypothesis `interrupted = false`. Here the clause WITHOUT that hypothesis is stated and refuted for the
-shape regenerated from the current source, with a two-iteration witness that `qh faults` replays on the real code on every run
-(plans "every loop-side size / head call fails … while an unrelated job is scheduled every 10 ms").
+used to only arm the timer with RetryInterval (`case err != nil: timer.Reset(RetryInterval)`) and set no deadline, so an interrupt — every
+successful mutating API call sends one — ended the wait and the next iteration asked the failing queue again at once. The repair tests
+the back-off deadline BEFORE asking `Size()` and sets it on `Size()` / `Head()` failures too.
+
+Here the clause is stated at full strength (`SizeRetryKept`: no hypothesis on what ended the wait, any later iteration, not only the next)
+and
+* PROVED for every well-formed shape (`C15_size_retry_kept_wf`) and so for the shape regenerated from the current source
+  (`C15_size_retry_kept`);
+* REFUTED for the shape before the repair (`askFirst`: `Size()` asked at the top of every iteration, no deadline set by its failure) with the
+  two-iteration witness that `qh faults` replays on the real code on every run (plans "every loop-side size / head call fails … while
+  an unrelated job is scheduled every 10 ms"): `C15_size_retry_full_fails`, a negative control like `C15_backoff_fails_without_flag`.
 -/
 namespace Faults
 
-/-- the clause at full strength for `Size()`: after an iteration whose `Size()` failed, the next iteration (which begins with the
-next `Size()` call) does not start before RetryInterval has passed, whatever ended the wait -/
+/-- the clause at full strength for `Size()`: after an iteration that asked `Size()` and got an error, no later iteration asks
+`Size()` (the call an iteration begins with, unless it is backing off) before RetryInterval has passed, whatever ended the waits in
+between -/
 def SizeRetryKept (S : Shape) (c : Cfg) (trig : Trig) : Prop :=
   ∀ (st0 : BState) (prev : Int) (ins : List In), WellTimed S c trig st0 prev ins →
-    ∀ (k : Nat) (ik ij : In), ins[k]? = some ik → ins[k + 1]? = some ij → ik.size = none →
+    ∀ (k j : Nat) (ik ij : In) (ok oj : Out) (o : Outcome), k < j → ins[k]? = some ik → ins[j]? = some ij →
+      (runLoop S c trig st0 ins).1[k]? = some ok → (runLoop S c trig st0 ins).1[j]? = some oj →
+      ok.calls.head? = some (.size, .err) → oj.calls.head? = some (.size, o) →
       ik.now1 + c.R ≤ ij.now1
+
+/-- an iteration whose first call is a failed `Size()` reports it as `armErr` (any shape) -/
+theorem armErr_of_size_err (S : Shape) (c : Cfg) (trig : Trig) (st : BState) (i : In)
+    (h : (iter S c trig st i).calls.head? = some (.size, .err)) : (iter S c trig st i).armErr = true := by
+  rw [iter_calls_eq] at h
+  rw [iter_armErr_eq]
+  cases hsk : skipsSize S st i.now1
+  · cases hs : i.size with
+    | none => simp
+    | some n => simp [hsk, hs] at h
+  · simp only [hsk, Bool.not_true, Bool.false_eq_true, ↓reduceIte, List.nil_append] at h
+    by_cases hn : chooseArm S st i.size i.now1 = .nextTick
+    · simp [hn] at h
+    · cases hint : i.interrupted
+      · obtain ⟨o', ho'⟩ := fetch_calls_head S c trig i
+        simp [hn, hint, ho'] at h
+      · simp [hn, hint] at h
+
+/-- every well-formed shape keeps the clause -/
+theorem C15_size_retry_kept_wf (S : Shape) (hS : WF S) (c : Cfg) (trig : Trig) : SizeRetryKept S c trig := by
+  intro st0 prev ins hwt k j ik ij ok oj o hkj hik hij hok hoj hk hj
+  have harm : ok.armErr = true := by
+    clear hwt hij hoj hj hkj
+    induction ins generalizing st0 k with
+    | nil => simp at hik
+    | cons i is ih =>
+      cases k with
+      | zero =>
+        have hok' : iter S c trig st0 i = ok := by simpa [runLoop] using hok
+        subst hok'
+        exact armErr_of_size_err S c trig st0 i hk
+      | succ k =>
+        simp only [List.getElem?_cons_succ] at hik
+        simp only [runLoop, List.getElem?_cons_succ] at hok
+        exact ih _ k hik hok
+  have h := ((C15_backoff S hS c trig st0 prev ins hwt k ik ok hik hok).1 harm).2 j ij oj hkj hij hoj
+  have hw := wellTimed_at S c trig st0 prev ins hwt k ik ok hik hok
+  have := h.2 o hj
+  omega
+
+/-- **the repaired source keeps the clause** -/
+theorem C15_size_retry_kept (c : Cfg) (trig : Trig) : SizeRetryKept Generated.Faults.shape c trig :=
+  C15_size_retry_kept_wf _ C15_facts_wf c trig
 
 /-- the environment of the witness: `Size()` fails; 1 ms after the timer was armed an interrupt arrives (some API call
 succeeded); the next iteration starts at 2 ms and asks `Size()` again, RetryInterval being 50 ms -/
@@ -27,18 +79,37 @@ def f4Iter (t : Int) : In :=
 
 def f4Cfg : Cfg := { R := 50, M := 1000000, thr := 100 }
 
+/-- Negative control: the loop as it was before the repair of F4 (`askFirst`) does NOT keep the clause -/
 theorem C15_size_retry_full_fails :
-    ¬ SizeRetryKept Generated.Faults.shape f4Cfg (fun _ _ => none) := by
+    ¬ SizeRetryKept (askFirst Generated.Faults.shape) f4Cfg (fun _ _ => none) := by
   intro h
-  have hw : WellTimed Generated.Faults.shape f4Cfg (fun _ _ => none) {} 0 [f4Iter 0, f4Iter 2] := by decide
-  have := h {} 0 [f4Iter 0, f4Iter 2] hw 0 (f4Iter 0) (f4Iter 2) rfl rfl rfl
+  have hw : WellTimed (askFirst Generated.Faults.shape) f4Cfg (fun _ _ => none) {} 0 [f4Iter 0, f4Iter 2] := by decide
+  have := h {} 0 [f4Iter 0, f4Iter 2] hw 0 1 (f4Iter 0) (f4Iter 2) _ _ .err (by decide) rfl rfl rfl rfl (by decide) (by decide)
   revert this
   decide
 
-/-- the same run seen through `C15_backoff`: both iterations report the `Size()` error (`armErr`), each armed RetryInterval, and
-the second one started 2 ms after the first — the interrupt made the difference -/
+/-- the same run seen through `C15_backoff`: before the repair both iterations report the `Size()` error (`armErr`), each armed
+RetryInterval, and the second one started 2 ms after the first — the interrupt made the difference; … -/
 example :
-    let r := (runLoop Generated.Faults.shape f4Cfg (fun _ _ => none) {} [f4Iter 0, f4Iter 2]).1
-    r.map (fun o => (o.armErr, o.armed)) = [(true, 50), (true, 50)] := by decide
+    let r := (runLoop (askFirst Generated.Faults.shape) f4Cfg (fun _ _ => none) {} [f4Iter 0, f4Iter 2]).1
+    r.map (fun o => (o.armErr, o.armed, o.calls)) = [(true, 50, [(.size, .err)]), (true, 50, [(.size, .err)])] := by decide
+
+/-- … the repaired loop, on the same inputs, is backing off in the second iteration: it asks the queue nothing and arms the timer
+for what is left of the RetryInterval (deadline 50, now 2) -/
+example :
+    let r := (runLoop Generated.Faults.shape f4Cfg (fun _ _ => none) {} [f4Iter 0, f4Iter 2])
+    r.1.map (fun o => (o.armErr, o.armed, o.calls)) = [(true, 50, [(.size, .err)]), (false, 48, [])] ∧
+    r.2 = { retryAt := some 50 } ∧
+    WellTimed Generated.Faults.shape f4Cfg (fun _ _ => none) {} 0 [f4Iter 0, f4Iter 2] := by decide
+
+/-- non-vacuity of `SizeRetryKept` for the repaired shape: a well-timed run in which `Size()` fails at 0, two interrupts arrive (at 1
+and 11), the timer fires at the deadline 50 (an empty `Pop()` on a queue that also fails `Size()` under the lock: a new deadline, 101),
+and the next `Size()` is asked at 101 — 101 ms after the failed one -/
+example :
+    let ins : List In := [f4Iter 0, f4Iter 10,
+      { f4Iter 20 with interrupted := false, tickAt := 50, nowVal := 50, nowErr := 51 }, f4Iter 101]
+    WellTimed Generated.Faults.shape f4Cfg (fun _ _ => none) {} 0 ins ∧
+    (runLoop Generated.Faults.shape f4Cfg (fun _ _ => none) {} ins).1.map (fun o => o.calls.head?) =
+      [some (.size, .err), none, some (.pop, .empty), some (.size, .err)] := by decide
 
 end Faults
